@@ -9,6 +9,9 @@ mod c14;
 mod c15;
 mod c16;
 mod c17;
+mod c18;
+mod c19;
+mod c20;
 mod c26;
 mod c27;
 
@@ -25,6 +28,11 @@ fn main() {
         "c15" => c15::run(&args),
         "c16" => c16::run(&args),
         "c17" => c17::run(&args),
+        "c18" => c18::run(&args),
+        "c18_par_small" => c18::run_small(&args),
+        "c19_subst" => c19::subst(&args),
+        "c19_malformed" => c19::malformed(&args),
+        "c20" => c20::run(&args),
         "c26_rt" => c26::roundtrip(&args),
         "c26_hostile" => c26::hostile(&args),
         "c27_exh" => c27::exhaustive(&args),
